@@ -144,8 +144,12 @@ fn run_impl(case: &Case) -> Result<(String, Vec<OpObs>), String> {
         let mut params = None;
         let mut max_payload = None;
         let (res, is_panic) = match c {
-            'e' | 'd' => {
-                let r = catch(|| if *c == 'e' { h.enable_streaming() } else { h.disable_streaming() });
+            'e' | 'd' | 's' => {
+                let r = catch(|| match *c {
+                    'e' => h.enable_streaming(),
+                    'd' => h.disable_streaming(),
+                    _ => h.sbrm().map(|_| ()),
+                });
                 match r {
                     Ok(Ok(())) => ("ok".to_string(), false),
                     Ok(Err(e)) => (format!("err:{}", ctrl_err_name(&e)), false),
@@ -188,7 +192,9 @@ fn run_impl(case: &Case) -> Result<(String, Vec<OpObs>), String> {
 fn in_scope(case: &Case, sirm: &[u8]) -> bool {
     let info = le32(&sirm[0..]);
     let e = info >> 24;
-    if e > 31 || case.u3vcp_cap & 1 == 0 {
+    // negotiated limits below these make ControlHandle refuse every read (max_cmd < 24) or
+    // cannot carry a single data byte (max_ack <= 12)
+    if e > 31 || case.u3vcp_cap & 1 == 0 || case.max_cmd < 24 || case.max_ack < 13 {
         return false;
     }
     let a = 1u128 << e;
@@ -268,6 +274,9 @@ fn oracle_inner(case: &Case, obs: &[OpObs], found: &mut Vec<(Value, String)>, co
         }
         if o.kind == 'd' {
             programmed = None;
+            continue;
+        }
+        if o.kind == 's' {
             continue;
         }
         // enable_streaming ---------------------------------------------------
@@ -360,7 +369,13 @@ fn oracle_inner(case: &Case, obs: &[OpObs], found: &mut Vec<(Value, String)>, co
     }
 }
 
-fn run_case(rep: &mut Report, case: &Case, src: &str) -> usize {
+fn run_case(rep: &mut Report, case: &Case, src: &str) -> Vec<usize> {
+    run_case_opt(rep, case, src, true)
+}
+
+/// `compare`: also hand the case to the Lean model (false for negotiated limits outside the
+/// model's assumption "one register access = one command").
+fn run_case_opt(rep: &mut Report, case: &Case, src: &str, compare: bool) -> Vec<usize> {
     rep.count(&format!("src/{src}"));
     let req = case.request();
     match run_impl(case) {
@@ -368,7 +383,7 @@ fn run_case(rep: &mut Report, case: &Case, src: &str) -> usize {
             // the scripted device could not even be opened: harness defect, make it loud
             rep.case(&req, false);
             rep.violation(json!({"check": "harness-open"}), &msg, case.to_json());
-            0
+            vec![]
         }
         Ok((answer, obs)) => {
             let nontrivial = obs.iter().any(|o| o.kind == 'e' && o.res == "ok");
@@ -387,9 +402,10 @@ fn run_case(rep: &mut Report, case: &Case, src: &str) -> usize {
             if rep.evaluations % 997 == 1 {
                 rep.sample(json!({"request": req, "impl": answer}));
             }
-            let n = obs.first().map_or(0, |o| o.log.len());
-            rep.expect(req, answer);
-            n
+            if compare {
+                rep.expect(req, answer);
+            }
+            obs.iter().map(|o| o.log.len()).collect()
         }
     }
 }
@@ -475,7 +491,9 @@ fn gen_case(rng: &mut Rng) -> Case {
     for g in &mut garbage {
         *g = if rng.chance(1, 3) { 0 } else { rng.next_u64() as u32 };
     }
-    let seqs: [&[char]; 9] = [&['e', 'p'], &['e', 'p'], &['e', 'p'], &['e', 'e', 'p'], &['d', 'e', 'p'], &['e', 'd', 'p'], &['p', 'e', 'p'], &['p'], &['d']];
+    let seqs: [&[char]; 11] = [&['e', 'p'], &['e', 'p'], &['e', 'p'], &['e', 'e', 'p'], &['d', 'e', 'p'], &['e', 'd', 'p'], &['p', 'e', 'p'], &['p'], &['d'],
+        // SBRM cached through the public accessor, SIRM address not yet (mixed cache state)
+        &['s', 'e', 'p'], &['s', 'd', 'e', 'p']];
     let ops = rng.pick(&seqs).iter().map(|c| (*c, None)).collect();
     Case {
         sbrm_addr,
@@ -492,6 +510,128 @@ fn gen_case(rng: &mut Rng) -> Case {
         response_ms: 1 + rng.below(2000) as u32,
         sirm_len,
         ops,
+    }
+}
+
+/// A well-formed in-scope device with the given negotiated limits.
+fn plain_case(rng: &mut Rng, max_cmd: u32, max_ack: u32, enabled: bool) -> Case {
+    let mut c = gen_case(rng);
+    let e = rng.below(9) as u32;
+    c.si_info = e << 24;
+    c.si_control = enabled as u32;
+    c.req_payload = 1920 * 1080 + rng.below(4096);
+    c.req_leader = 52;
+    c.req_trailer = 64 + rng.below(64) as u32;
+    c.u3vcp_cap |= 1;
+    c.sirm_len = SIRM_LEN;
+    c.sbrm_addr = 0x2_0000;
+    c.sirm_addr = 0x3_0000;
+    c.max_cmd = max_cmd;
+    c.max_ack = max_ack;
+    c
+}
+
+/// Negotiated limits around the assumption of the model (max_cmd >= 24, max_ack >= 20):
+/// * max_cmd 21..23: a ReadMem command (24 bytes) does not fit, ControlHandle refuses every read;
+///   a register write would be split into 1..3 byte commands.  Demanded: no write command (in
+///   particular no partial enable write) ever reaches the device from `enable_streaming`.
+/// * the same limits after a re-open with warm caches (`disable_streaming` then needs no read):
+///   the split disable write must clear the enable bit and respect the limit.
+/// * max_ack 13..19 with max_cmd >= 24: register reads are split, writes are single commands:
+///   the full property oracle applies.
+/// These cases are outside the Lean model's device interface and are checked by the oracle only.
+fn boundary_limits(rep: &mut Report, rng: &mut Rng) {
+    for max_cmd in [21u32, 22, 23] {
+        for enabled in [false, true] {
+            // (a) fresh handle
+            let mut c = plain_case(rng, max_cmd, 1024, enabled);
+            c.ops = vec![('e', None), ('d', None), ('p', None), ('e', None)];
+            let req = format!("boundary fresh max_cmd={max_cmd} enabled={enabled}");
+            rep.count("src/boundary-small-max-cmd");
+            match run_impl(&c) {
+                Err(m) => rep.violation(json!({"check": "harness-open"}), &m, c.to_json()),
+                Ok((_, obs)) => {
+                    rep.case(&req, false);
+                    for o in &obs {
+                        if !o.res.starts_with("err") {
+                            rep.violation(json!({"check": "small_max_cmd", "part": "result"}),
+                                &format!("max_cmd {max_cmd}: op '{}' returned {} although no read command fits", o.kind, o.res), c.to_json());
+                        }
+                        if o.log.iter().any(|a| matches!(a, Acc::W { .. })) {
+                            rep.violation(json!({"check": "small_max_cmd", "part": "write-reached-device"}),
+                                &format!("max_cmd {max_cmd}: op '{}' sent a write command", o.kind), c.to_json());
+                        }
+                        if o.log.iter().any(|a| matches!(a, Acc::R { .. })) {
+                            rep.violation(json!({"check": "small_max_cmd", "part": "oversized-read-command"}),
+                                &format!("max_cmd {max_cmd}: op '{}' sent a 24 byte read command", o.kind), c.to_json());
+                        }
+                    }
+                    oracle(&c, &obs, rep);
+                }
+            }
+            // (b) warm caches, then the device re-negotiates a smaller command length
+            let c = plain_case(rng, 1024, 1024, enabled);
+            rep.count("src/boundary-small-max-cmd-after-reopen");
+            rep.case(&format!("boundary reopen max_cmd={max_cmd} enabled={enabled}"), true);
+            let usb = FakeUsb::new(c.regions());
+            let r = catch(|| -> Result<(), String> {
+                let mut h = open_handle(&usb)?;
+                h.enable_streaming().map_err(|e| format!("first enable: {e}"))?;
+                h.close().map_err(|e| format!("close: {e}"))?;
+                if !usb.poke(c.sbrm_addr + 0x14, &max_cmd.to_le_bytes()) {
+                    return Err("poke".into());
+                }
+                h.open().map_err(|e| format!("reopen: {e}"))?;
+                usb.arm(None);
+                let r = h.enable_streaming();
+                let log = usb.take_log();
+                if r.is_ok() {
+                    return Err("enable_streaming succeeded although no read command fits".into());
+                }
+                if log.iter().any(|a| matches!(a, Acc::W { .. })) {
+                    return Err("enable_streaming sent a write command although its reads are refused".into());
+                }
+                usb.arm(None);
+                let r = h.disable_streaming();
+                let log = usb.take_log();
+                let room = (max_cmd - 20) as usize;
+                if log.iter().any(|a| matches!(a, Acc::W { data, .. } if data.len() > room) || matches!(a, Acc::R { .. })) {
+                    return Err("disable_streaming sent a command longer than the negotiated maximum".into());
+                }
+                match r {
+                    Ok(()) => {
+                        let ctrl = usb.peek(c.sirm_addr + SI_CONTROL, 4).unwrap();
+                        if ctrl != [0, 0, 0, 0] {
+                            return Err(format!("disable_streaming returned Ok but SI_CONTROL = {ctrl:?}"));
+                        }
+                        if log.len() != (4 + room - 1) / room {
+                            return Err(format!("disable write split into {} commands", log.len()));
+                        }
+                    }
+                    Err(_) => {
+                        if log.iter().any(|a| matches!(a, Acc::W { .. })) {
+                            return Err("disable_streaming failed after a partial write".into());
+                        }
+                    }
+                }
+                Ok(())
+            });
+            match r {
+                Ok(Ok(())) => {}
+                Ok(Err(m)) => rep.violation(json!({"check": "small_max_cmd", "part": "reopen"}), &format!("max_cmd {max_cmd} after re-open: {m}"), c.to_json()),
+                Err(()) => rep.violation(json!({"check": "no_panic", "class": "small_max_cmd-reopen"}), "panic", c.to_json()),
+            }
+        }
+    }
+    // (c) small acknowledge lengths: split reads, full oracle
+    for max_ack in [13u32, 14, 15, 16, 19, 20] {
+        for max_cmd in [24u32, 27, 64] {
+            for enabled in [false, true] {
+                let mut c = plain_case(rng, max_cmd, max_ack, enabled);
+                c.ops = vec![('e', None), ('p', None), ('e', None), ('d', None)];
+                run_case_opt(rep, &c, "boundary-small-max-ack", max_ack >= 20);
+            }
+        }
     }
 }
 
@@ -564,11 +704,15 @@ fn main() {
         }
     }
 
+    // 1b. negotiated limits at the boundary of "one register access = one command"
+    boundary_limits(&mut rep, &mut rng);
+
     // 2. random cases incl. larger exponents, unmapped / overflowing maps, op sequences
     let rounds = if args.thorough() { 60_000 } else { 6_000 };
     for i in 0..rounds {
         let c = gen_case(&mut rng);
-        let n = run_case(&mut rep, &c, "random");
+        let ns = run_case(&mut rep, &c, "random");
+        let n = ns.first().copied().unwrap_or(0);
         // 3. failure at each step of the first op, for a subset of cases
         let every = if args.thorough() { 6 } else { 12 };
         if i % every == 0 {
@@ -579,6 +723,18 @@ fn main() {
                 let first = cf.ops[0].0;
                 cf.ops = vec![(first, Some(f)), ('p', None), ('e', None), ('p', None)];
                 run_case(&mut rep, &cf, "fault-each-step");
+            }
+        }
+        // 4. failure at each step of a later op (warm caches, stream possibly enabled by the
+        // earlier ops), then recovery
+        if i % every == every / 2 && ns.len() >= 2 {
+            let j = 1 + rng.below(ns.len() as u64 - 1) as usize;
+            for k in 0..=ns[j] {
+                let mut cf = c.clone();
+                cf.ops[j].1 = Some(gen_fault(&mut rng, k));
+                cf.ops.push(('e', None));
+                cf.ops.push(('p', None));
+                run_case(&mut rep, &cf, "fault-each-step-later-op");
             }
         }
         if rep.evaluations % 20_000 == 0 {
